@@ -20,12 +20,13 @@
 (* (a lone surrogate from a JSON \ud800 escape): printing it fails, and it  *)
 (* must be found out BEFORE the -o target is opened (opening truncates).    *)
 (* file kinds: "list" "object" "lookup" (ok) | "missing" "malformed"        *)
-(*   "badlookup" "scalar" (fail while loading) | "nonobject" "nonstrkey"    *)
+(*   "badlookup" "scalar" "noglob" (fail while loading) | "nonobject"       *)
+(*   "nonstrkey"                                                            *)
 (*   (load fine, fail in generate)                                          *)
 (***************************************************************************)
 EXTENDS Naturals, Sequences, FiniteSets, SequencesExt, TLC
 
-LoadFails == {"missing", "malformed", "badlookup", "scalar"}
+LoadFails == {"missing", "malformed", "badlookup", "scalar", "noglob"}     \* noglob: a pattern that matches no file at all
 GenFails  == {"nonobject", "nonstrkey"}
 OkKinds   == {"list", "object", "lookup", "glob"}     \* glob: a pattern matching two files; their order is unspecified
 
